@@ -32,6 +32,24 @@ def _alarm(signum, frame):
     raise ImplTimeout()
 
 
+TIMEOUTS = [0]          # implementation calls that hit the per-case time limit in this run
+
+
+def guarded_iter(gen, limit_s=600):
+    """iterate a case generator with a watchdog: generators call into the implementation to build cases, and a
+    non-terminating loop there must surface as a failure of the check, not hang it"""
+    while True:
+        signal.signal(signal.SIGALRM, _alarm)
+        signal.setitimer(signal.ITIMER_REAL, limit_s)
+        try:
+            case = next(gen)
+        except StopIteration:
+            return
+        finally:
+            signal.setitimer(signal.ITIMER_REAL, 0)
+        yield case
+
+
 def safe(fn, args, timeout=60):
     """Run implementation code: any exception is the canonical ERR."""
     signal.signal(signal.SIGALRM, _alarm)
@@ -39,6 +57,7 @@ def safe(fn, args, timeout=60):
     try:
         return sexp.canon(fn(*args)), None
     except ImplTimeout:
+        TIMEOUTS[0] += 1
         return ERR, "timeout"
     except RecursionError:
         return ERR, "RecursionError"
@@ -123,6 +142,7 @@ class Engine:
         try:
             detail = self.mod.PROPS[name](*args)
         except ImplTimeout:
+            TIMEOUTS[0] += 1
             detail = "property predicate timed out (implementation hang)"
         except Exception as e:  # noqa
             detail = "property predicate raised " + "".join(
@@ -372,9 +392,12 @@ class Engine:
             budget_s = getattr(self.mod, "BUDGET_S", {"quick": 600, "thorough": 3000})[self.tier]
             t_gen = time.time()          # the case budget starts after the builds
             try:
-                for case in self.mod.generate(ctx):
+                for case in guarded_iter(self.mod.generate(ctx)):
                     handle(self.run_case(case))
                     if len(self.corr_fail) + len(self.prop_fail) > 50:
+                        break
+                    if TIMEOUTS[0] >= 4 and (self.corr_fail or self.prop_fail):
+                        ctx.label("stopped-after-repeated-timeouts")
                         break
                     if time.time() - t_gen > budget_s:
                         ctx.label("time-budget-reached")
@@ -400,9 +423,11 @@ class Engine:
                 ctx2 = Ctx(pid, self.tier, self.seed, scale=8.0)
                 t1 = time.time()
                 try:
-                    for case in self.mod.generate(ctx2):
+                    for case in guarded_iter(self.mod.generate(ctx2)):
                         if case[0] != "prop":
                             continue
+                        if TIMEOUTS[0] >= 8:
+                            break
                         v = self.run_case(case)
                         if v is not None and self.classify(v) not in known_keys:
                             self.prop_fail.append(v)
